@@ -460,20 +460,21 @@ class ThingSa:
         Base.metadata.create_all(self.engine)
         self.session = Session(self.engine)
 
-    def compile(self, st):
-        c = st.compile(self.engine, compile_kwargs={"render_postcompile": True})
+    def compile(self, st, named=False):
+        # named: the default dialect (named parameters), where one shared bind parameter shows as one placeholder name
+        c = st.compile(compile_kwargs={"render_postcompile": True}) if named else st.compile(self.engine, compile_kwargs={"render_postcompile": True})
         params = c.params
         return str(c), [params[k] for k in params]
 
-    def orm(self, text, legacy=False):
+    def orm(self, text, legacy=False, named=False):
         from odata_query.sqlalchemy import apply_odata_query
         q = self.session.query(self.Thing) if legacy else self.sa.select(self.Thing)
         st = apply_odata_query(q, text)
-        return self.compile(st.statement if legacy else st)
+        return self.compile(st.statement if legacy else st, named)
 
-    def core(self, text):
+    def core(self, text, named=False):
         from odata_query.sqlalchemy import apply_odata_core
-        return self.compile(apply_odata_core(self.sa.select(self.Thing.__table__), text))
+        return self.compile(apply_odata_core(self.sa.select(self.Thing.__table__), text), named)
 
 
 def django_thing(text):
